@@ -689,14 +689,14 @@ class AnotherSolutionNoCurrent(Contract):
 class CallSequences(Contract):
     target = "solver.SchedulingSolver.solve"
     inlines = ("solver.SchedulingSolver.initialize", "solver.SchedulingSolver.export_to_smt2", "solver.SchedulingSolver.check_sat", "solver.SchedulingSolver.find_another_solution", "solver.SchedulingSolver.append_z3_assertion")
-    props = ("C13", "C16", "C12")
+    props = ("C13", "C16", "C12", "C07")
     diff = "eval"
     bounded = "sequences of at most 3 public calls on one solver object; problems with 2 tasks"
 
     def cases(self, tier):
         out = []
         calls = ("initialize", "export", "solve")
-        for obj in ("none", "single", "multi"):
+        for obj in ("none", "single", "multi", "multi_max"):
             for optimizer in ("incremental", "optimize"):
                 if obj == "none" and optimizer == "optimize":
                     continue
@@ -724,9 +724,15 @@ class CallSequences(Contract):
             ps.ObjectiveMinimizeMakespan()
         if case["obj"] == "multi":
             ps.ObjectiveMinimizeFlowtime()
+        if case["obj"] == "multi_max":
+            # several objectives, all to be maximised
+            i1 = ps.IndicatorFromMathExpression(name="i1", expression=t1._start)
+            i2 = ps.IndicatorFromMathExpression(name="i2", expression=t2._end - t1._end)
+            ps.Objective(name="o1", target=i1, kind="maximize")
+            ps.Objective(name="o2", target=i2, kind="maximize", weight=2)
         kw = dict(optimizer=case["optimizer"])
         if case["optimizer"] == "optimize":
-            kw["optimize_priority"] = "lex"
+            kw["optimize_priority"] = "weight" if case["obj"] == "multi_max" else "lex"
         solver = ps.SchedulingSolver(problem=pb, **kw)
         reg_before = {k: list(getattr(pb, k)) for k in ("tasks", "workers", "constraints", "indicators", "objectives")}
         results = []
@@ -786,9 +792,9 @@ class CallSequences(Contract):
                 continue
             ex = ctx["extras"][i]
             # the first stack of a sequence that starts with initialize / assert already holds nothing extra
-            out.append(Clause(f"invariant[after call {i+1} ({case['seq'][i]}): the stack is the problem's constraint system" + (" and what earlier calls added on purpose]" if ex else "]"), And(*s) == And(*first, *ex), props=("C13", "C12") if ex else ("C13",), kind="invariant", bounded=self.bounded))
+            out.append(Clause(f"invariant[after call {i+1} ({case['seq'][i]}): the stack is the problem's constraint system" + (" and what earlier calls added on purpose]" if ex else "]"), And(*s) == And(*first, *ex), props=("C13", "C12") if ex else (("C13", "C07") if (case["seq"][i] == "second_solver" and case["obj"] != "none") else ("C13",)), kind="invariant", bounded=self.bounded))
         out.append(Clause("invariant[no scope left open]", sym._term(G.pushed_count()) == 0, props=("C13",), kind="invariant", bounded=self.bounded))
-        if case["obj"] != "multi" or case["optimizer"] == "optimize":
+        if not case["obj"].startswith("multi") or (case["optimizer"] == "optimize" and case["obj"] == "multi"):
             reg_after = {k: list(getattr(pb, k)) for k in ctx["reg_before"]}
             out.append(Clause("frame[the problem's registries are not changed by the solver]", z3.BoolVal(reg_after == ctx["reg_before"]), props=("C13",), kind="frame", bounded=self.bounded))
         for i, r in enumerate(ctx["results"]):
@@ -898,9 +904,14 @@ def _callseq_native_search(case, params, ob):
             ps.ObjectiveMinimizeMakespan()
         if case["obj"] == "multi":
             ps.ObjectiveMinimizeFlowtime()
+        if case["obj"] == "multi_max":
+            i1 = ps.IndicatorFromMathExpression(name="i1", expression=t1._start)
+            i2 = ps.IndicatorFromMathExpression(name="i2", expression=t2._end - t1._end)
+            ps.Objective(name="o1", target=i1, kind="maximize")
+            ps.Objective(name="o2", target=i2, kind="maximize", weight=2)
         kw = dict(optimizer=case["optimizer"])
         if case["optimizer"] == "optimize":
-            kw["optimize_priority"] = "lex"
+            kw["optimize_priority"] = "weight" if case["obj"] == "multi_max" else "lex"
         verdicts = []
         if "assert" in case["seq"] or "another" in case["seq"]:
             # the case's own call sequence on the real library: a user assertion must hold in every schedule returned
@@ -946,15 +957,30 @@ def _callseq_native_search(case, params, ob):
                 return {"confirmed": False, "observation": {"sequence": list(case["seq"]), "returned": obs}}
             except Exception as e:  # noqa
                 return {"confirmed": True, "observation": {"sequence": list(case["seq"]), "exception": f"{type(e).__name__}: {e}"}}
+        values = []
+
+        def value(sol):
+            # the optimised quantity, where the case has a single well-defined one
+            if not sol:
+                return None
+            if case["obj"] == "single":
+                return sol.horizon
+            if case["obj"] == "multi_max":
+                return sol.indicators["i1"] + 2 * sol.indicators["i2"]
+            return None
+
         try:
             s1 = ps.SchedulingSolver(problem=pb, **kw)
-            verdicts.append(bool(s1.solve()))
+            r = s1.solve()
+            verdicts.append(bool(r)), values.append(value(r))
             s2 = ps.SchedulingSolver(problem=pb, **kw)
-            verdicts.append(bool(s2.solve()))
-            verdicts.append(bool(s1.solve()))
+            r = s2.solve()
+            verdicts.append(bool(r)), values.append(value(r))
+            r = s1.solve()
+            verdicts.append(bool(r)), values.append(value(r))
         except Exception as e:  # noqa
             return {"confirmed": True, "observation": {"verdicts": verdicts, "exception": f"{type(e).__name__}: {e}"}}
-    return {"confirmed": len(set(verdicts)) > 1, "observation": {"verdicts_first_second_first": verdicts}}
+    return {"confirmed": len(set(verdicts)) > 1 or len(set(values)) > 1, "observation": {"verdicts_first_second_first": verdicts, "optimised_values_first_second_first": values}}
 
 
 CallSequences.native_search = staticmethod(_callseq_native_search)
